@@ -226,6 +226,20 @@ func (sw *SlidingWindow) Add(data any) {
 		}
 		sw.initialized = true
 	}
+	// An on-time event older than the current slot (out of order within
+	// MaxOutOfOrderness before that slot ever fired, or following a far-future
+	// first event) must not be skipped: move the current slot back to its window.
+	// No fired window can be revisited: a fired window ends at or before the
+	// watermark, so an event inside it is late.
+	// (With slide > size an event may lie in the gap between two windows; it
+	// belongs to none, so the slot is only moved when it covers the event.)
+	if timeChar == types.EventTime && sw.currentSlot != nil && eventTime.Before(*sw.currentSlot.Start) &&
+		(sw.watermark == nil || !sw.watermark.IsEventTimeLate(eventTime)) {
+		if slot := sw.createSlotFromStart(alignWindowStart(eventTime, sw.slide)); slot.Contains(eventTime) {
+			sw.currentSlot = slot
+		}
+	}
+
 	row := types.Row{
 		Data:      data,
 		Timestamp: eventTime,
